@@ -223,8 +223,7 @@ void psCRL_RemoveAll()
     psLockMutex(&g_crlTableLock);
 #  endif /* USE_MULTITHREADING */
     curr = g_CRL;
-    next = curr->next;
-    while (next)
+    while (curr)
     {
         next = curr->next;
         curr->next = NULL;
